@@ -88,7 +88,7 @@ def check_case(case):
 
 OPS = ['delete', 'duplicate', 'swap', 'move', 'truncate', 'retag', 'orphan-trailer', 'dup-trailer', 'bad-count', 'empty-segment',
        'blank-segment', 'sep-only-segment', 'no-elements', 'extra-elements', 'extra-components', 'long-segment', 'second-isa',
-       'unknown-gs08', 'bad-isa12', 'leading-blank', 'trailing-seps', 'bad-bht02', 'bad-hl', 'lowercase-id', 'isa-15-elements', 'delete-header']
+       'unknown-gs08', 'bad-isa12', 'leading-blank', 'trailing-seps', 'bad-bht02', 'bad-hl', 'lowercase-id', 'isa-15-elements', 'delete-header', 'garble-element', 'garble-element', 'bad-lx']
 
 
 def mutate(text, ch, nops):
@@ -185,6 +185,17 @@ def mutate(text, ch, nops):
             if k:
                 j = k[ch.integer(0, len(k) - 1)]
                 segs[j] = ch.choice(['HL', 'HL' + ele, 'HL' + ele + 'X', 'HL%s1%sX%s20%s1' .replace('%s', ele), 'HL%s%s%s' .replace('%s', ele)])
+        elif op == 'garble-element':
+            p = segs[i].split(ele)
+            if len(p) > 1:
+                j = ch.integer(1, len(p) - 1)
+                p[j] = ch.choice(['A', '', '1.0', '-', 'X' * 100, 'A\x07', ' ', '0', '-1', '99999999', 'é', sub, sub + 'A', 'A' + sub, '20041301', '2560'])
+                segs[i] = ele.join(p)
+        elif op == 'bad-lx':
+            k = [j for j, s in enumerate(segs) if s.startswith('LX')]
+            if k:
+                j = k[ch.integer(0, len(k) - 1)]
+                segs[j] = ch.choice(['LX', 'LX' + ele, 'LX' + ele + 'A', 'LX' + ele + '1.0', 'LX' + ele + ' 1', 'LX' + ele + '01'])
         elif op == 'lowercase-id':
             segs[i] = segs[i][:1].lower() + segs[i][1:]
         elif op == 'isa-15-elements':
